@@ -39,6 +39,7 @@
 (*           orbit attribute names)                                        *)
 (*   saved   what the point file on disk holds                             *)
 (*   Ipts    keys of System._libration_points                              *)
+(*   sc      the System's service cache (propagate entries)                *)
 (*                                                                         *)
 (* Stamps name the inputs a value was computed from, e.g.                  *)
 (*   <<"nft", x>>  normal-form transform built with scale factors x        *)
@@ -71,17 +72,19 @@ CONSTANTS ScaleKeyHasArgs,   \* the key of collinear scale_factor(lambda1, omega
           Forms,             \* Hamiltonian form names; "physical" does not depend on the normal-form transform
           UserOpts,          \* user option names, e.g. {"o1", "o2"}
           OtherPoints,       \* other libration-point indices get_libration_point may instantiate
+          PropTimes,         \* names of final times offered to system.propagate
           Self,              \* index name of the point under test
           MaxLen
 
 VARIABLES Lo, Lc, Lpts,          \* logical state
           Io, Ic, Ipts,          \* implementation attributes
           pc,                    \* the point's service cache
+          sc,                    \* the System's service cache
           left,                  \* [o, c]: leftover copies in the point's own __dict__
           saved,                 \* <<>> or <<[Lo, Lc, Lpts, o, c, pts]>>
           last, hist
 
-vars == <<Lo, Lc, Lpts, Io, Ic, Ipts, pc, left, saved, last, hist>>
+vars == <<Lo, Lc, Lpts, Io, Ic, Ipts, pc, sc, left, saved, last, hist>>
 
 DefaultOpt == "oD"
 DefaultCfg == "cC"
@@ -112,6 +115,9 @@ CMKeyF(d)     == K(<<Atom("center_manifold"), Atom(d)>>)
 HamKeyF(d, f) == K(<<Atom("hamiltonian"), Atom(d), Atom(f)>>)
 HsKeyF(d, f)  == K(<<Atom("hamsys"), Atom(d), Atom(f)>>)
 GfKeyF(d)     == K(<<Atom("generating_functions"), Atom(d)>>)
+\* System.propagate -> _SystemsDynamicsService.propagate: make_key("propagate", state0, tf, steps, method, order, forward, None)
+SysPropKeyF(t) == MakeKey(<<Atom("system"), Atom("propagate"), Lst(<<Atom("x"), Atom("y")>>), Atom(t), Atom("steps"),
+                           Atom("adaptive"), Atom("8"), Atom("1"), Atom("None")>>)
 \* constant-level tables of the parameterised keys (TLC evaluates them once)
 AllCn   == CnOrders \cup {"k2"} \cup UNION {CnUpTo[d] : d \in Degrees}
 AllOpts == UserOpts \cup {DefaultOpt}
@@ -122,6 +128,8 @@ CMTab   == [d \in Degrees |-> CMKeyF(d)]
 HamTab  == [x \in Degrees \X Forms |-> HamKeyF(x[1], x[2])]
 HsTab   == [x \in Degrees \X Forms |-> HsKeyF(x[1], x[2])]
 GfTab   == [d \in Degrees |-> GfKeyF(d)]
+SysPropTab == [t \in PropTimes |-> SysPropKeyF(t)]
+SysPropKey(t) == SysPropTab[t]
 CnKey(k)      == CnTab[k]
 SfKey(a)      == SfTab[a]
 StabKey(o, c) == StabTab[<<o, c>>]
@@ -196,7 +204,7 @@ FreshStab == Val(<<"stab", Lo, Lc>>)
 Init ==
     /\ Lo = DefaultOpt /\ Lc = DefaultCfg /\ Lpts = {Self}
     /\ Io = "none" /\ Ic = "none" /\ Ipts = {Self}
-    /\ pc = {} /\ left = [o |-> "none", c |-> "none"] /\ saved = <<>>
+    /\ pc = {} /\ sc = {} /\ left = [o |-> "none", c |-> "none"] /\ saved = <<>>
     /\ last = [op |-> "init", arg |-> <<>>, ret |-> Nothing, exp |-> Nothing, hit |-> "-"]
     /\ hist = <<>>
 
@@ -207,7 +215,7 @@ RecordV(op, arg, ret, exp, hit, expv) ==
 Record(op, arg, ret, exp, hit) == RecordV(op, arg, ret, exp, hit, "")
 HM(h) == IF h THEN "H" ELSE "M"
 
-Attr == <<Lo, Lc, Lpts, Io, Ic, Ipts, left, saved>>
+Attr == <<Lo, Lc, Lpts, Io, Ic, Ipts, sc, left, saved>>
 
 (***************************************************************************)
 (* ALGORITHM TRANSCRIPTION: one action per public operation                *)
@@ -240,7 +248,7 @@ StabRead(op) ==
     IN  /\ op \in Enabled
         /\ pc' = c2 /\ Io' = o /\ Ic' = c
         /\ Record(op, <<>>, Val(Lookup(c2, k)), FreshStab, HM(Has(pc, k)))
-        /\ UNCHANGED <<Lo, Lc, Lpts, Ipts, left, saved>>
+        /\ UNCHANGED <<Lo, Lc, Lpts, Ipts, sc, left, saved>>
 Eigenvalues == StabRead("Eigenvalues")
 IsStable    == StabRead("IsStable")
 
@@ -273,34 +281,41 @@ ReadOptions ==
     /\ "ReadOptions" \in Enabled
     /\ Io' = EffO(Io)
     /\ RecordV("ReadOptions", <<>>, Val(<<"opts", EffO(Io)>>), Val(<<"opts", Lo>>), "-", Lo)
-    /\ UNCHANGED <<Lo, Lc, Lpts, Ic, Ipts, pc, left, saved>>
+    /\ UNCHANGED <<Lo, Lc, Lpts, Ic, Ipts, pc, sc, left, saved>>
 SetOptions(o) ==
     /\ "SetOptions" \in Enabled
     /\ Io' = o /\ Lo' = EffO(o)
     /\ Record("SetOptions", <<o>>, Nothing, Nothing, "-")
-    /\ UNCHANGED <<Lc, Lpts, Ic, Ipts, pc, left, saved>>
+    /\ UNCHANGED <<Lc, Lpts, Ic, Ipts, pc, sc, left, saved>>
 \* eigendecomposition_config getter / setter (setter: _generator = None, the cache is NOT touched)
 ReadConfig ==
     /\ "ReadConfig" \in Enabled
     /\ Ic' = EffC(Ic)
     /\ RecordV("ReadConfig", <<>>, Val(<<"cfg", EffC(Ic)>>), Val(<<"cfg", Lc>>), "-", Lc)
-    /\ UNCHANGED <<Lo, Lc, Lpts, Io, Ipts, pc, left, saved>>
+    /\ UNCHANGED <<Lo, Lc, Lpts, Io, Ipts, pc, sc, left, saved>>
 SetConfig(c) ==
     /\ "SetConfig" \in Enabled
     /\ Ic' = c /\ Lc' = EffC(c)
     /\ Record("SetConfig", <<c>>, Nothing, Nothing, "-")
-    /\ UNCHANGED <<Lo, Lpts, Io, Ipts, pc, left, saved>>
+    /\ UNCHANGED <<Lo, Lpts, Io, Ipts, pc, sc, left, saved>>
 
 \* system.get_libration_point(i) for another index; sorted(system.libration_points)
 SysGetPoint(i) ==
     /\ "SysGetPoint" \in Enabled
     /\ Ipts' = Ipts \cup {i} /\ Lpts' = Lpts \cup {i}
     /\ RecordV("SysGetPoint", <<i>>, Val(<<"point", i>>), Val(<<"point", i>>), "-", i)
-    /\ UNCHANGED <<Lo, Lc, Io, Ic, pc, left, saved>>
+    /\ UNCHANGED <<Lo, Lc, Io, Ic, pc, sc, left, saved>>
+\* system.propagate(state0, tf=t, steps, method, order): memoised in the System's cache; a pure function of the arguments
+SysPropagate(t) ==
+    LET g == GetOrCreate(sc, SysPropKey(t), <<"traj", t>>)
+    IN  /\ "SysPropagate" \in Enabled
+        /\ sc' = g[2]
+        /\ Record("SysPropagate", <<t>>, Val(g[1]), Val(<<"traj", t>>), HM(g[3]))
+        /\ UNCHANGED <<Lo, Lc, Lpts, Io, Ic, Ipts, pc, left, saved>>
 SysPoints ==
     /\ "SysPoints" \in Enabled
     /\ RecordV("SysPoints", <<>>, Val(<<"pts", Ipts>>), Val(<<"pts", Lpts>>), "-", Lpts)
-    /\ UNCHANGED <<Lo, Lc, Lpts, Io, Ic, Ipts, pc, left, saved>>
+    /\ UNCHANGED <<Lo, Lc, Lpts, Io, Ic, Ipts, pc, sc, left, saved>>
 
 (* point.save(path) = pickle of __getstate__.  _HitenBase.__getstate__ starts from a copy of the point's    *)
 (* __dict__ (which holds `left`), then reads EVERY attribute of the dynamics service in dir() order: the   *)
@@ -316,12 +331,12 @@ Save ==
     /\ saved' = <<[Lo |-> Lo, Lc |-> Lc, Lpts |-> Lpts, o |-> FileO, c |-> FileC, pts |-> Ipts]>>
     /\ pc' = CSave(pc) /\ Io' = EffO(Io) /\ Ic' = EffC(Ic)
     /\ Record("Save", <<>>, Nothing, Nothing, HM(Has(pc, SaveFirstKey)))
-    /\ UNCHANGED <<Lo, Lc, Lpts, Ipts, left>>
+    /\ UNCHANGED <<Lo, Lc, Lpts, Ipts, sc, left>>
 
 \* LibrationPoint.load(path) / point.load_inplace(path): services rebuilt (empty cache), the saved
 \* _eigendecomposition_* restored onto the new service; the System travels inside the pickle
 Restore(s) ==
-    /\ Io' = s.o /\ Ic' = s.c /\ Ipts' = s.pts /\ pc' = {}
+    /\ Io' = s.o /\ Ic' = s.c /\ Ipts' = s.pts /\ pc' = {} /\ sc' = {}
     /\ left' = IF LeftoverFix THEN [o |-> "none", c |-> "none"] ELSE [o |-> s.o, c |-> s.c]
 Load(op) ==
     /\ op \in Enabled /\ saved # <<>>
@@ -330,12 +345,12 @@ Load(op) ==
     /\ Record(op, <<>>, Nothing, Nothing, "-")
     /\ UNCHANGED saved
 
-\* system.save(path); system = System.load(path); point = system.get_libration_point(Self):
-\* the points are pickled inside the System through the same __getstate__
-SysSaveLoad ==
+\* system.save(path); system = System.load(path)  [or system.load_inplace(path)];
+\* point = system.get_libration_point(Self): the points are pickled inside the System through the same __getstate__
+SysSaveLoad(mode) ==
     /\ "SysSaveLoad" \in Enabled
     /\ Restore([o |-> FileO, c |-> FileC, pts |-> Ipts])
-    /\ Record("SysSaveLoad", <<>>, Nothing, Nothing, HM(Has(pc, SaveFirstKey)))
+    /\ Record("SysSaveLoad", <<mode>>, Nothing, Nothing, HM(Has(pc, SaveFirstKey)))
     /\ UNCHANGED <<Lo, Lc, Lpts, saved>>
 
 Next ==
@@ -349,7 +364,8 @@ Next ==
     \/ \E o \in UserOpts \cup {"none"} : SetOptions(o)
     \/ \E c \in {"cD", "none"} : SetConfig(c)
     \/ \E i \in OtherPoints : SysGetPoint(i)
-    \/ Save \/ Load("Load") \/ Load("LoadInplace") \/ SysSaveLoad
+    \/ \E t \in PropTimes : SysPropagate(t)
+    \/ Save \/ Load("Load") \/ Load("LoadInplace") \/ SysSaveLoad("load") \/ SysSaveLoad("inplace")
 
 \* the operation named (op, arg): lets a test-generation module take ONE given operation without
 \* evaluating the whole alphabet
@@ -379,7 +395,8 @@ Do(op, arg) ==
     \/ op = "SysGetPoint" /\ SysGetPoint(arg[1])
     \/ op = "Save" /\ Save
     \/ op \in {"Load", "LoadInplace"} /\ Load(op)
-    \/ op = "SysSaveLoad" /\ SysSaveLoad
+    \/ op = "SysSaveLoad" /\ SysSaveLoad(arg[1])
+    \/ op = "SysPropagate" /\ SysPropagate(arg[1])
 
 Spec == Init /\ [][Next]_vars
 HistBound == Len(hist) <= MaxLen
@@ -412,7 +429,9 @@ KeyOf(r) ==
       [] r[1] = "cn" -> CnKey(r[2]) [] r[1] = "sf" -> SfKey(r[2]) [] r[1] = "stab" -> StabKey(r[2], r[3])
       [] r[1] = "cm" -> CMKey(r[2]) [] r[1] = "gf" -> GfKey(r[2])
       [] r[1] = "ham" -> HamKey(r[2], r[3]) [] r[1] = "hs" -> HsKey(r[2], r[3])
-DistinctQuantitiesDistinctKeys == \A r1 \in Requests, r2 \in Requests : r1 # r2 => KeyOf(r1) # KeyOf(r2)
+DistinctQuantitiesDistinctKeys ==
+    /\ \A r1 \in Requests, r2 \in Requests : r1 # r2 => KeyOf(r1) # KeyOf(r2)
+    /\ \A t1 \in PropTimes, t2 \in PropTimes : t1 # t2 => SysPropKey(t1) # SysPropKey(t2)
 
 (***************************************************************************)
 (* Structural invariants of the transcription                              *)
